@@ -529,7 +529,65 @@ class StubsLib(StubsBase):
         return None
 
     def np_reshape(self, ctx, a, shape):
-        raise Unsupported("reshape")
+        """reshape restricted to: identity, splitting one axis into two, merging two adjacent axes
+        (C order); at most one -1.  Result shares memory with the argument (a view) -- conservative
+        for the frame analysis (NumPy copies only when the input is not contiguous)."""
+        ctx.note("stub:ndarray.reshape (split/merge of one axis, C order, view)")
+        shape = tuple(shape)
+        old = a.shape
+
+        def same(x, y):
+            if not is_sym(x) and not is_sym(y):
+                return x == y
+            return ctx.is_valid(V.eq(x, y))
+        wild = [i for i, d in enumerate(shape) if not is_sym(d) and d == -1]
+        if len(wild) > 1:
+            raise PyExc("ValueError", "can only specify one unknown dimension")
+
+        def matches(xs, ys, wildcard=False):
+            return len(xs) == len(ys) and all((wildcard and not is_sym(y) and y == -1) or
+                                              (not (not is_sym(y) and y == -1) and same(x, y)) for x, y in zip(xs, ys))
+        if len(shape) == len(old) and matches(old, shape, wildcard=True):
+            return SArr(old, a.elem, a.dtype, a.backend, owner=a.owner)
+        if len(shape) == len(old) + 1:
+            for j in range(len(old)):
+                if matches(old[:j], shape[:j]) and matches(old[j + 1:], shape[j + 2:]):
+                    A_, B_ = shape[j], shape[j + 1]
+                    L = old[j]
+                    if not is_sym(A_) and A_ == -1:
+                        if ctx.branch(V.Or(V.le(B_, 0), V.ne(V.mod_int(ctx, L, B_) if not (not is_sym(B_) and B_ <= 0) else 1, 0)), "reshape size mismatch"):
+                            raise PyExc("ValueError", "cannot reshape array")
+                        A_ = V.simp(V.floordiv_int(ctx, L, B_))
+                    elif not is_sym(B_) and B_ == -1:
+                        if ctx.branch(V.Or(V.le(A_, 0), V.ne(V.mod_int(ctx, L, A_) if not (not is_sym(A_) and A_ <= 0) else 1, 0)), "reshape size mismatch"):
+                            raise PyExc("ValueError", "cannot reshape array")
+                        B_ = V.simp(V.floordiv_int(ctx, L, A_))
+                    else:
+                        if ctx.branch(V.ne(V.mul(A_, B_), L), "reshape size mismatch"):
+                            raise PyExc("ValueError", "cannot reshape array")
+                    new_shape = old[:j] + (A_, B_) + old[j + 1:]
+                    return SArr(new_shape, lambda ix, j=j, B_=B_: a.elem(ix[:j] + (V.add(V.mul(ix[j], B_), ix[j + 1]),) + ix[j + 2:]),
+                                a.dtype, a.backend, owner=a.owner)
+        if len(shape) == len(old) - 1:
+            for j in range(len(shape)):
+                if matches(old[:j], shape[:j]) and matches(old[j + 2:], shape[j + 1:]):
+                    P_ = V.simp(V.mul(old[j], old[j + 1]))
+                    tgt = shape[j]
+                    if not is_sym(tgt) and tgt == -1:
+                        rest = A.shape_prod(old[:j] + old[j + 2:])
+                        if ctx.branch(V.eq(rest, 0), "reshape -1 with an empty remainder"):
+                            raise PyExc("ValueError", "cannot reshape array of size 0 into an ambiguous shape")
+                    if not (not is_sym(tgt) and tgt == -1):
+                        if ctx.branch(V.ne(tgt, P_), "reshape size mismatch"):
+                            raise PyExc("ValueError", "cannot reshape array")
+                    B_ = old[j + 1]
+                    new_shape = old[:j] + (P_,) + old[j + 2:]
+
+                    def elem(ix, j=j, B_=B_):
+                        m = ix[j]
+                        return a.elem(ix[:j] + (V.floordiv_int(ctx, m, B_), V.mod_int(ctx, m, B_)) + ix[j + 1:])
+                    return SArr(new_shape, elem, a.dtype, a.backend, owner=a.owner)
+        raise Unsupported(f"reshape {old} -> {shape}")
 
     def arr_getattr(self, a: SArr, name, ctx):
         if name == "shape":
@@ -745,9 +803,10 @@ class StubsLib(StubsBase):
     def frame_write_arr(self, arr: SArr, what, ctx):
         roots = [r for r in arr.owner if not r.startswith("fresh:") and r not in ctx.sanctioned]
         ctx.writes.append((what, sorted(arr.owner)))
-        if roots:
-            ctx.oblige(f"frame.array-write[{what}]", False, "frame",
-                       {"what": f"in-place write to memory owned by {roots}"})
+        # every in-place array write is an obligation: its target must be memory allocated in this call
+        # (or the explicitly sanctioned out= target)
+        ctx.oblige(f"frame.array-write[{what}]", not roots, "frame",
+                   {"what": f"in-place write to memory owned by {roots}" if roots else "target allocated in this call"})
         others = arr.owner - {f"fresh:{arr.id}"}
         ctx.dirty_roots |= set(others)
 
